@@ -18,6 +18,13 @@ func runCanariesImpl(dir string) string {
 	if err != nil {
 		return "canary module does not load: " + err.Error()
 	}
+	// in the canary module the functions named inl* play the part of new functions
+	w.base.loaded, w.base.fns = true, map[string]bool{}
+	for k, fi := range w.Funcs {
+		if !strings.HasPrefix(fi.Decl.Name.Name, "inl") {
+			w.base.fns[k] = true
+		}
+	}
 	if os.Getenv("DBG_CANARY") != "" {
 		for _, f := range w.SSAFuncs {
 			fmt.Println("SSAFUNC", f.String())
